@@ -204,7 +204,7 @@ CHECKS["C11"] = {
                   "breadth-first with de-duplication on the canonical object form; in every state all gets, defaulted gets and listings are compared with a "
                   "reference ordered map, refused calls must have no effect, typed setters are applied one step ahead, and the state must be reproducible; "
                   "a second alphabet (bfs-odd-names) uses the bracket pair alone as group-less spelling, section and key names that are equal under the "
-                  "library's own string hash, a bracketed/plain alias pair and an array-style section name",
+                  "library's own string hash, a bracketed/plain alias pair, a key ending in a blank and (in the getters) an array-style section name",
     "level_note": "bounded: depth 4 (quick) / 5, and 6 from the empty constructors (thorough); trusted: reference map in harness/e2common.h; canonical form read from the private struct "
                   "(keeps the spare capacity); a merge of two histories with different reference states is reported (canon-conflict)",
     "rule": "state = canonical form (entries in order with group/key/value/comments/quote flag, group list, spare capacity, tags); transition = one "
@@ -396,7 +396,7 @@ CHECKS["C20"] = {
     "technique": "explicit-state search over setter histories + exhaustive fault-position enumeration over trees, real code with a link-time allocation ledger (leaks), ASan (double free / use after free) and a MemorySanitizer build (uninitialised reads)",
     "level_text": "(a) every state reachable by <= d setter calls from 8 start states is built, queried through every getter (succeeding and failing), written, merged "
                   "and released: the allocation ledger (all allocating libc entry points of the library wrapped at link time) must be empty; (b) every small "
-                  "tree x four read entry points (with and without callback) x every consulted-file position x fault kind {callback rejects, foreign owner, foreign group, "
+                  "tree x seven read entry-point variants (with and without callback; incl. list options given twice) x every consulted-file position x fault kind {callback rejects, foreign owner, foreign group, "
                   "symlink while symlinks are refused, file mode refused, directory mode refused, malformed line, file vanishes between check and open, dangling symlink, unknown option item} (thorough: all pairs of positions): out-pointers "
                   "NULL/untouched/valid, ledger empty after releasing the valid handles; (c) the same two sweeps under clang MemorySanitizer with every returned "
                   "field checked for initialisation; (d) the free functions accept NULL and return NULL",
@@ -406,15 +406,15 @@ CHECKS["C20"] = {
     "deadline": {"quick": 110, "thorough": 1200},
     "parts": [
         {"name": "e2-ledger", "harness": "c20", "variant": "ledger", "shards": 1, "extra_srcs": ["ledger.c"], "ldflags": LEDGER_LD,
-         "quick": ["--p0", 0, "--p1", 4], "thorough": ["--p0", 0, "--p1", 5], "deadline_share": 0.3, "floor": {"quick": 1000, "thorough": 10000}},
+         "quick": ["--p0", 0, "--p1", 4], "thorough": ["--p0", 0, "--p1", 5], "deadline_share": 0.25, "floor": {"quick": 1000, "thorough": 10000}},
         {"name": "faults-ledger", "harness": "c20", "variant": "ledger", "extra_srcs": ["ledger.c"], "ldflags": LEDGER_LD,
-         "quick": ["--p0", 1, "--p1", 3, "--p2", 0], "thorough": ["--p0", 1, "--p1", 3, "--p2", 1], "deadline_share": 0.3, "floor": {"quick": 10000, "thorough": 100000}},
+         "quick": ["--p0", 1, "--p1", 3, "--p2", 0], "thorough": ["--p0", 1, "--p1", 3, "--p2", 1], "deadline_share": 0.5, "floor": {"quick": 10000, "thorough": 100000}},
         {"name": "nullfree", "harness": "c20", "variant": "ledger", "shards": 1, "extra_srcs": ["ledger.c"], "ldflags": LEDGER_LD,
          "quick": ["--p0", 2], "thorough": ["--p0", 2], "deadline_share": 0.02, "floor": {"quick": 2, "thorough": 2}},
         {"name": "e2-msan", "harness": "c20", "variant": "msan", "shards": 1, "cflags": ["-DNO_LEDGER"],
-         "quick": ["--p0", 0, "--p1", 3], "thorough": ["--p0", 0, "--p1", 4], "deadline_share": 0.18, "floor": {"quick": 500, "thorough": 5000}},
+         "quick": ["--p0", 0, "--p1", 3], "thorough": ["--p0", 0, "--p1", 4], "deadline_share": 0.1, "floor": {"quick": 500, "thorough": 5000}},
         {"name": "faults-msan", "harness": "c20", "variant": "msan", "cflags": ["-DNO_LEDGER"],
-         "quick": ["--p0", 1, "--p1", 2, "--p2", 0], "thorough": ["--p0", 1, "--p1", 3, "--p2", 0], "deadline_share": 0.2, "floor": {"quick": 500, "thorough": 10000}},
+         "quick": ["--p0", 1, "--p1", 2, "--p2", 0], "thorough": ["--p0", 1, "--p1", 3, "--p2", 0], "deadline_share": 0.13, "floor": {"quick": 500, "thorough": 10000}},
     ],
     "assumptions": ["checks run as root for the foreign-owner fault (skipped and counted otherwise)"],
 }
